@@ -58,6 +58,9 @@ def make_data(case, d):
         target = np.array(["lo", "hi"])[cls]
     else:
         target = np.round(2.0 * cls + 0.05 * np.arange(n), 4)
+    if case.get("int_target"):
+        # a target stored with an integer dtype: counts for regression, numbered classes
+        target = (3 * cls + np.arange(n) % 4).astype("int64") if case["task"] != "tsc" else np.array([3, 7], dtype="int64")[cls]
     df = pd.DataFrame({"dim_0": rows, "target": target})
     more = case.get("more_features") or 0
     if more and not case.get("extra_column"):
@@ -238,6 +241,8 @@ def oracle(case, ctx):
     ctx.label(case["store"])
     ctx.label(case["cv"]["kind"])
     ctx.label(case["task"])
+    if case.get("int_target"):
+        ctx.label("integer_typed_target")
     if case["store"] == "ram":
         doubles.reset_calls()
         res = RAMResults()
@@ -419,7 +424,7 @@ def cases(draw, all_points=True):
         "cv": cv, "store": store, "predict_on_train": draw(st.sampled_from([True, True, False])),
         "save_fitted": draw(st.booleans()) if store == "disk" else False,
         "crash_points": "all", "extra_column": draw(st.booleans()), "more_features": draw(st.sampled_from([0, 0, 1, 2, 3])),
-        "presplit_layout": layout,
+        "presplit_layout": layout, "int_target": draw(st.integers(0, 2)) == 0,
     }
 
 
@@ -435,6 +440,10 @@ def enum_stores_and_splits(tier):
                 yield {"task": task, "n_datasets": 1, "n_strategies": 2, "n_inst": 6, "seed": 77, "cv": {k: v for k, v in cv.items() if k != "_layout"},
                        "store": store, "predict_on_train": True, "save_fitted": False, "crash_points": [1, 4], "extra_column": False,
                        "more_features": 2 if task == "tsc" else 0, "presplit_layout": cv.get("_layout", "train_first")}
+                if cv in cvs[:1] + cvs[3:4]:
+                    yield {"task": task, "n_datasets": 1, "n_strategies": 2, "n_inst": 6, "seed": 78, "cv": dict(cv), "store": store,
+                           "predict_on_train": True, "save_fitted": False, "crash_points": [1], "extra_column": False, "more_features": 0,
+                           "presplit_layout": "train_first", "int_target": True}
 
 
 def subchecks():
